@@ -68,20 +68,28 @@ def _digest(spec, root):
     for p in paths:
         try:
             with open(p, "rb") as f:
-                h.update(p.encode())
+                h.update(os.path.relpath(p, root).encode())
                 h.update(f.read())
         except OSError:
             raise AnalysisError("source file %s missing" % p)
     return h.hexdigest()[:24]
 
 
-def load_tu(name, root=None):
+def load_tu(name, root=None, _raw=False):
     """list of top-level declaration dicts of the TU that belong to repo files"""
     root = root or REPO
+    if not _raw and os.environ.get("VCHECK_NO_RENAME") != "1" and os.path.abspath(root) != os.path.abspath(os.path.join(VERIF, "baseline")):
+        decls = load_tu(name, root, _raw=True)
+        try:
+            undo_c_renames(decls, name)
+        except AnalysisError:
+            pass
+        return decls
     spec = TUS[name]
     dg = _digest(spec, root)
     os.makedirs(CACHE, exist_ok=True)
-    cpath = os.path.join(CACHE, "%s-%s.json" % (name, dg))
+    ctag = ("base_" + name) if os.path.abspath(root) == os.path.abspath(os.path.join(VERIF, "baseline")) else name
+    cpath = os.path.join(CACHE, "%s-%s.json" % (ctag, dg))
     if os.path.exists(cpath):
         try:
             with open(cpath) as f:
@@ -137,9 +145,11 @@ def load_tu(name, root=None):
     with open(tmp, "w") as f:
         json.dump(decls, f)
     os.replace(tmp, cpath)
-    # drop stale cache entries of this TU
-    for fn in os.listdir(CACHE):
-        if fn.startswith(name + "-") and fn != os.path.basename(cpath) and fn.endswith(".json"):
+    # keep the cache small: at most 12 entries per TU (variants of the tree analysed by the self-tests), oldest dropped first
+    mine = sorted((fn for fn in os.listdir(CACHE) if fn.startswith(ctag + "-") and fn.endswith(".json")),
+                  key=lambda fn: os.path.getmtime(os.path.join(CACHE, fn)) if os.path.exists(os.path.join(CACHE, fn)) else 0)
+    for fn in mine[:-12]:
+        if fn != os.path.basename(cpath):
             try:
                 os.unlink(os.path.join(CACHE, fn))
             except OSError:
@@ -691,3 +701,97 @@ def string_table_effects(fn_decl, table_param, resolve_index=None):
 
     visit(body_of(fn_decl), ())
     return out
+
+
+# --------------------------------------------------------------------------
+# comparison with the reviewed baseline (see vcheck/rename.py for the python side)
+# --------------------------------------------------------------------------
+BASELINE = os.path.join(VERIF, "baseline")
+_NAME_KEYS = ("name",)
+
+
+def baseline_functions(tu):
+    """name -> decl of the baseline copy of a translation unit (None when it cannot be parsed)"""
+    key = ("base", tu)
+    if key in _inc_cache:
+        return _inc_cache[key]
+    try:
+        out = functions(load_tu(tu, root=BASELINE, _raw=True))
+    except AnalysisError:
+        out = None
+    _inc_cache[key] = out
+    return out
+
+
+def _kids(n):
+    return [c for c in (n.get("inner", []) or []) if isinstance(c, dict) and c.get("kind")]
+
+
+def c_skeleton(n):
+    """node kinds and arity only"""
+    return (n.get("kind"), tuple(c_skeleton(c) for c in _kids(n)))
+
+
+def c_exact(n):
+    return (n.get("kind"), n.get("name"), n.get("opcode"), n.get("value"), (n.get("referencedDecl") or {}).get("name"),
+            (n.get("type") or {}).get("qualType") if n.get("kind") in ("VarDecl", "ParmVarDecl", "CStyleCastExpr") else None,
+            tuple(c_exact(c) for c in _kids(n)))
+
+
+def c_change_kind(cur, base):
+    if base is None:
+        return "restructured"
+    if c_skeleton(cur) != c_skeleton(base):
+        return "restructured"
+    return "same" if c_exact(cur) == c_exact(base) else "leaf"
+
+
+def _pair_names(cur, base, m):
+    """walk two trees of identical skeleton and collect {current local name: baseline local name}"""
+    k = cur.get("kind")
+    if k in ("VarDecl", "ParmVarDecl") and cur.get("name") and base.get("name"):
+        m.setdefault(cur["name"], set()).add(base["name"])
+    if k == "DeclRefExpr":
+        a, b = cur.get("referencedDecl") or {}, base.get("referencedDecl") or {}
+        if a.get("kind") in ("VarDecl", "ParmVarDecl") and b.get("kind") in ("VarDecl", "ParmVarDecl") and a.get("name") and b.get("name"):
+            m.setdefault(a["name"], set()).add(b["name"])
+    for x, y in zip(_kids(cur), _kids(base)):
+        _pair_names(x, y, m)
+
+
+def _apply_names(n, m):
+    k = n.get("kind")
+    if k in ("VarDecl", "ParmVarDecl") and n.get("name") in m:
+        n["name"] = m[n["name"]]
+    if k == "DeclRefExpr":
+        rd = n.get("referencedDecl") or {}
+        if rd.get("kind") in ("VarDecl", "ParmVarDecl") and rd.get("name") in m:
+            rd["name"] = m[rd["name"]]
+    for c in _kids(n):
+        _apply_names(c, m)
+
+
+def undo_c_renames(decls, tu):
+    """functions whose body has exactly the baseline's shape get their locals and parameters renamed back to the baseline's
+    names (pure renames must not change a verdict); anything else is left as it is"""
+    base = baseline_functions(tu)
+    if not base:
+        return 0
+    cur = functions(decls)
+    n = 0
+    seen = set()
+    for name, d in cur.items():
+        if id(d) in seen:
+            continue
+        seen.add(id(d))
+        b = base.get(name)
+        if b is None or c_skeleton(d) != c_skeleton(b) or c_exact(d) == c_exact(b):
+            continue
+        m = {}
+        _pair_names(d, b, m)
+        mm = {x: next(iter(ys)) for x, ys in m.items() if len(ys) == 1}
+        mm = {x: y for x, y in mm.items() if x != y}
+        if mm:
+            _apply_names(d, mm)
+            n += len(mm)
+    return n
